@@ -161,26 +161,39 @@ type c08Case struct {
 	o     *c08Opt
 	items []int
 	mode  int
+	line  int // thorough tier: the line of transaction 1 that the chosen deviations change (-1: none in particular)
 }
 
 const c08NModes = 4
 
-// c08ApplyQuick applies quick-tier deviation d (shape deviation, layout or mode) and chooses at most one wide
-// character among the sites it introduces (classes: the first nclass of 😀, é, €). Returns the layout.
-func c08ApplyQuick(c *c08Case, d int, nclass int) int {
-	o := c.o
-	layout := 0
-	var sites []int
+// c08ApplyOne applies one quick-tier deviation code: a shape deviation (0..c08NDev-1), a layout (next
+// len(c08Layouts)-1 codes) or a multi-file mode (the codes after those). Returns the layout and the slot sites
+// the deviation introduces.
+func c08ApplyOne(c *c08Case, d int) (int, []int) {
 	switch {
 	case d < c08NDev:
-		c08Dev(o, d)
-		sites = c08DevSites(d)
+		c08Dev(c.o, d)
+		return 0, c08DevSites(d)
 	case d < c08NDev+len(c08Layouts)-1:
-		layout = d - c08NDev + 1
-		sites = c08LayoutSites(layout)
-	default:
-		c.mode = d - (c08NDev + len(c08Layouts) - 1) + 1
-		sites = []int{c08SSeg1, c08SSeg2}
+		layout := d - c08NDev + 1
+		return layout, c08LayoutSites(layout)
+	}
+	c.mode = d - (c08NDev + len(c08Layouts) - 1) + 1
+	return 0, []int{c08SSeg1, c08SSeg2}
+}
+
+// c08ApplyQuick applies quick-tier deviation d (code of c08ApplyOne, or two codes at once: 1000*d1 + d2) and chooses
+// at most one wide character among the sites it introduces (classes: the first nclass of 😀, é, €). Returns the layout.
+func c08ApplyQuick(c *c08Case, d int, nclass int) int {
+	o := c.o
+	var layout int
+	var sites []int
+	if d >= 1000 {
+		l1, s1 := c08ApplyOne(c, d/1000)
+		l2, s2 := c08ApplyOne(c, d%1000)
+		layout, sites = l1+l2, c08Union(s1, s2) // at most one of the two is a layout
+	} else {
+		layout, sites = c08ApplyOne(c, d)
 	}
 	if k := zzverif.Choice("site", len(sites)+1); k > 0 {
 		o.site = sites[k-1]
@@ -189,9 +202,14 @@ func c08ApplyQuick(c *c08Case, d int, nclass int) int {
 	return layout
 }
 
+// c08QuickExtras: combinations of two deviations that the quick tier adds to the single ones, each the smallest
+// shape in which a known class shows: CRLF with an include directive;
+// a lower-case commodity followed by a comment, by a cost, by a CRLF line end.
+var c08QuickExtras = []int{37*1000 + c08NDev + 11, 25*1000 + 30, 25*1000 + 27, 25*1000 + 37}
+
 // c08ChooseList: quick-tier derivation restricted to the listed deviations.
 func c08ChooseList(devs []int, nclass int) *c08Case {
-	c := &c08Case{o: &c08Opt{hws: 1, gap: 2, site: -1, site2: -1}}
+	c := &c08Case{o: &c08Opt{hws: 1, gap: 2, site: -1, site2: -1}, line: -1}
 	layout := c08ApplyQuick(c, devs[zzverif.Choice("dev", len(devs))], nclass)
 	c.items = c08Layouts[layout]
 	return c
@@ -199,26 +217,142 @@ func c08ChooseList(devs []int, nclass int) *c08Case {
 
 var c08F1Items = []int{c08IAcct0, c08IComm0, c08IT2}
 
-// c08Choose picks the derivation. quick: one deviation (a shape deviation, a layout or a multi-file mode) and at
-// most one wide character; thorough: two shape deviations, any layout, any mode, at most two wide characters.
-// modes: number of multi-file modes the calling harness supports (0 or c08NModes).
-func c08Choose(tier int, modes int) *c08Case {
-	o := &c08Opt{hws: 1, gap: 2, site: -1, site2: -1}
-	c := &c08Case{o: o}
+// c08DevField: the field of the derivation a shape deviation sets (two deviations of one field exclude each other).
+func c08DevField(d int) int {
+	switch {
+	case d == 3 || d == 39:
+		return 3
+	case d >= 7 && d <= 11:
+		return 7
+	case d == 12 || d == 13:
+		return 12
+	case d == 15 || d == 16:
+		return 15
+	case d >= 19 && d <= 26:
+		return 19
+	case d == 27 || d == 28:
+		return 27
+	case d >= 30 && d <= 34:
+		return 30
+	case d == 35 || d == 36:
+		return 35
+	}
+	return d
+}
+
+// c08DevGroup: the line a shape deviation changes: 0 header, 1 first posting, 2 second posting, 3 the whole document.
+func c08DevGroup(d int) int {
+	switch {
+	case d == 0 || d == 37 || d == 38:
+		return 3
+	case d <= 11 || d == 39:
+		return 0
+	case d <= 34:
+		return 1
+	}
+	return 2
+}
+
+func c08Union(a, b []int) []int {
+	out := append([]int{}, a...)
+	for _, x := range b {
+		dup := false
+		for _, y := range out {
+			dup = dup || x == y
+		}
+		if !dup {
+			out = append(out, x)
+		}
+	}
+	return out
+}
+
+var c08GroupSites = [][]int{{c08SDesc}, {c08SSeg1}, {c08SAcct2}, {c08SDesc, c08SSeg1, c08SAcct2}}
+
+// c08ChooseThorough: the thorough-tier derivations, four families (all include the quick tier's shapes):
+//   0  two shape deviations on the same line (or one of them document-wide: CRLF, no final EOL), single layout,
+//      at most one wide character (astral or the 3-byte currency sign) among the leaves of that line
+//   1  every layout with the base shape, with CRLF, without final EOL; at most one wide character (three classes)
+//   2  every multi-file mode with one shape deviation (harnesses with modes only)
+//   3  one shape deviation and two wide characters (3 x 3 classes) at two of its sites
+// c.line is the line the deviations change (-1: no single line).
+func c08ChooseThorough(c *c08Case, modes int) int {
+	o := c.o
 	layout := 0
-	if tier == c08Quick {
-		layout = c08ApplyQuick(c, zzverif.Choice("dev", c08NDev+len(c08Layouts)-1+modes), 3)
-	} else {
+	nf := 4
+	fam := zzverif.Choice("family", nf)
+	switch fam {
+	case 0:
 		d1 := zzverif.Choice("dev", c08NDev)
 		d2 := zzverif.Choice("dev2", c08NDev)
-		zzverif.Assume(d2 == 0 || d2 > d1)
+		g1, g2 := c08DevGroup(d1), c08DevGroup(d2)
+		zzverif.Assume(d1 <= d2 && (d1 == d2 || c08DevField(d1) != c08DevField(d2)) && (g1 == g2 || g1 == 3 || g2 == 3))
+		// without an amount there is no gap, cost or assertion
+		zzverif.Assume(!(d2 == 26 && d1 == 18) && !(d1 == 26 && (d2 == 27 || d2 == 28 || d2 == 29)))
 		c08Dev(o, d1)
 		c08Dev(o, d2)
-		layout = zzverif.Choice("layout", len(c08Layouts))
-		if modes > 0 {
-			c.mode = zzverif.Choice("mode", modes+1)
+		g := g1
+		if g == 3 {
+			g = g2
 		}
-		c08Sites(o)
+		sites := c08Union(c08Union(c08DevSites(d1), c08DevSites(d2)), c08GroupSites[g])
+		if g < 3 {
+			c.line = g
+		}
+		if k := zzverif.Choice("site", len(sites)+1); k > 0 {
+			o.site = sites[k-1]
+			o.class = []int{3, 2}[zzverif.Choice("class", 2)]
+		}
+	case 1:
+		layout = 1 + zzverif.Choice("layout", len(c08Layouts)-1)
+		c08Dev(o, []int{0, 37, 38}[zzverif.Choice("dev", 3)])
+		sites := c08Union(c08LayoutSites(layout), []int{c08SDesc})
+		if k := zzverif.Choice("site", len(sites)+1); k > 0 {
+			o.site = sites[k-1]
+			o.class = 1 + zzverif.Choice("class", 3)
+		}
+	case 2:
+		zzverif.Assume(modes > 0)
+		c.mode = 1 + zzverif.Choice("mode", c08NModes)
+		zzverif.Assume(c.mode <= modes)
+		d := zzverif.Choice("dev", c08NDev)
+		c08Dev(o, d)
+		sites := c08Union(c08DevSites(d), []int{c08SSeg1, c08SSeg2})
+		if k := zzverif.Choice("site", len(sites)+1); k > 0 {
+			o.site = sites[k-1]
+			o.class = 3
+		}
+	case 3:
+		d := zzverif.Choice("dev", c08NDev)
+		c08Dev(o, d)
+		sites := c08DevSites(d)
+		zzverif.Assume(len(sites) >= 2)
+		i := zzverif.Choice("site", len(sites))
+		j := zzverif.Choice("site2", len(sites))
+		zzverif.Assume(i < j)
+		o.site, o.site2 = sites[i], sites[j]
+		o.class = 1 + zzverif.Choice("class", 3)
+		o.class2 = 1 + zzverif.Choice("class2", 3)
+	}
+	return layout
+}
+
+// c08Choose picks the derivation. quick: one deviation (a shape deviation, a layout or a multi-file mode) and at
+// most one wide character; thorough: see c08ChooseThorough.
+// modes: number of multi-file modes the calling harness supports (0 .. c08NModes).
+func c08Choose(tier int, modes int) *c08Case {
+	o := &c08Opt{hws: 1, gap: 2, site: -1, site2: -1}
+	c := &c08Case{o: o, line: -1}
+	layout := 0
+	if tier == c08Quick {
+		base := c08NDev + len(c08Layouts) - 1 + modes
+		d := zzverif.Choice("dev", base+len(c08QuickExtras))
+		if d >= base {
+			d = c08QuickExtras[d-base]
+		}
+		layout = c08ApplyQuick(c, d, 3)
+	} else {
+		layout = c08ChooseThorough(c, modes)
 	}
 	c.items = c08Layouts[layout]
 	if c.mode > 0 {
@@ -234,7 +368,7 @@ var c08StructItems = []int{c08IT1, c08IT2, c08IAcct0, c08IAcct3, c08IComm4, c08I
 // at most one wide character (in the description or an account segment).
 func c08ChooseStruct(n int) *c08Case {
 	o := &c08Opt{hws: 1, gap: 2, site: -1, site2: -1}
-	c := &c08Case{o: o}
+	c := &c08Case{o: o, line: -1}
 	k := 2 + zzverif.Choice("entries", n-1)
 	for i := 0; i < k; i++ {
 		if i > 0 && zzverif.Choice("sep"+zzverif.Itoa(i), 2) == 1 {
@@ -252,20 +386,6 @@ func c08ChooseStruct(n int) *c08Case {
 		o.class = 3
 	}
 	return c
-}
-
-func c08Sites(o *c08Opt) {
-	s := zzverif.Choice("site", c08NSites+1) - 1
-	if s >= 0 {
-		o.site = s
-		o.class = 1 + zzverif.Choice("class", 3)
-		s2 := zzverif.Choice("site2", c08NSites+1) - 1
-		zzverif.Assume(s2 == -1 || s2 > s)
-		if s2 >= 0 {
-			o.site2 = s2
-			o.class2 = 1 + zzverif.Choice("class2", 3)
-		}
-	}
 }
 
 // ---------------- server set-up ----------------
@@ -318,10 +438,8 @@ func (w *c08W) docFor(u protocol.DocumentURI) *c08Doc {
 	return w.docOf(u)
 }
 
-// c08Open builds the documents of the case, starts a fresh server, opens the requesting document
-// and runs the background diagnostics task to completion.
-func c08Open(c *c08Case) *c08W {
-	ctx := context.Background()
+// c08Prepare builds the documents of the case (no server yet).
+func c08Prepare(c *c08Case) *c08W {
 	w := &c08W{mode: c.mode}
 	d0, b := c08BuildShared(c.o, c.items, nil)
 	w.names = []string{"f0.journal"}
@@ -336,6 +454,19 @@ func c08Open(c *c08Case) *c08W {
 			w.req = 1
 		}
 	}
+	return w
+}
+
+// c08Open builds the documents of the case, starts a fresh server, opens the requesting document
+// and runs the background diagnostics task to completion.
+func c08Open(c *c08Case) *c08W {
+	w := c08Prepare(c)
+	w.open()
+	return w
+}
+
+func (w *c08W) open() {
+	ctx := context.Background()
 	for i, n := range w.names {
 		zzverif.WriteFile(c08Path(n), w.docs[i].text)
 	}
@@ -343,7 +474,7 @@ func c08Open(c *c08Case) *c08W {
 	w.cl = &zzClient{}
 	w.s.SetClient(w.cl)
 	ip := &protocol.InitializeParams{}
-	if c.mode == 2 || c.mode == 3 {
+	if w.mode == 2 || w.mode == 3 {
 		ip.RootURI = protocol.DocumentURI("file://" + zzverif.Root())
 	}
 	_, _ = w.s.Initialize(ctx, ip)
@@ -355,7 +486,6 @@ func c08Open(c *c08Case) *c08W {
 	} else {
 		w.s.publishDiagnostics(ctx, w.uri(), text) // natively: run the background task synchronously as well
 	}
-	return w
 }
 
 func (w *c08W) tdp(pos protocol.Position) protocol.TextDocumentPositionParams {
@@ -385,16 +515,17 @@ func c08CursorConcrete(d *c08Doc) protocol.Position {
 // every cause involved is listed as known.
 
 const (
-	c08ClsAstral      = "astral-rune-columns"     // columns count runes, so they fall short after an astral character
-	c08ClsAcctBlank   = "account-trailing-blank"  // account followed by one blank and more text: range includes the blank
-	c08ClsAmountBlank = "amount-trailing-blanks"  // amount followed by blanks and another token: range runs to that token
-	c08ClsPayeeEst    = "payee-estimated-start"   // payee start estimated as date end + 1 (+2 with status)
-	c08ClsTagBytes    = "tag-byte-offsets"        // tag ranges add byte offsets inside the comment to a rune column
-	c08ClsTagValBlank = "tag-value-leading-blank" // tag value hover starts right after the colon
-	c08ClsDirNoEnd    = "directive-name-no-end"   // Account/Commodity of a directive carry no end position
-	c08ClsCommText    = "commodity-text-to-eol"   // lower-case commodity lexed as text: range runs to the comment or line end
-	c08ClsLinkDir     = "link-covers-directive"   // document link range is the whole include directive
-	c08ClsFoldNext    = "fold-ends-on-next-entry" // a transaction's fold ends on the line of the token after it
+	c08ClsAstral      = "c08-astral-rune-columns"     // columns count runes, so they fall short after an astral character
+	c08ClsAcctBlank   = "c08-account-trailing-blank"  // account followed by one blank and more text: range includes the blank
+	c08ClsAmountBlank = "c08-amount-trailing-blanks"  // amount followed by blanks and another token: range runs to that token
+	c08ClsPayeeEst    = "c08-payee-estimated-start"   // payee start estimated as date end + 1 (+2 with status)
+	c08ClsTagBytes    = "c08-tag-byte-offsets"        // tag ranges add byte offsets inside the comment to a rune column
+	c08ClsTagValBlank = "c08-tag-value-leading-blank" // tag value hover starts right after the colon
+	c08ClsDirNoEnd    = "c08-directive-name-no-end"   // Account/Commodity of a directive carry no end position
+	c08ClsCommText    = "c08-commodity-text-to-eol"   // lower-case commodity lexed as free text: its token runs to the next ';' or the line end (CR included)
+	c08ClsLinkDir     = "c08-link-covers-directive"   // document link range is the whole include directive
+	c08ClsFoldNext    = "c08-fold-ends-on-next-entry" // a transaction's fold ends on the line of the token after it
+	c08ClsIncludeCR   = "c08-include-range-covers-cr" // CRLF document: an include directive's range ends after the CR
 )
 
 type c08Sig struct {
@@ -430,11 +561,44 @@ func (d *c08Doc) sigs(li int) []c08Sig {
 			out = append(out, c08Sig{c08ClsAcctBlank, l.rs, l.re + 1})
 		}
 	case c08KAmount:
-		if nb := d.nextNonBlank(l.line, l.re); nb > l.re {
+		nb := d.nextNonBlank(l.line, l.re)
+		if nb > l.re {
 			out = append(out, c08Sig{c08ClsAmountBlank, l.rs, nb})
 		}
+		// the amount ends with a lower-case commodity: the lexer reads free text from there to the next ';' or the
+		// line end. Nothing follows: the CR of a CRLF line end is part of the token. A cost or an assertion
+		// follows: the text is no commodity, the amount is the quantity alone and runs to where the text starts.
+		for i := range d.leaves {
+			cm := &d.leaves[i]
+			if cm.kind != c08KComm || cm.line != l.line || cm.re != l.re || !c08LowerName(cm.name) {
+				continue
+			}
+			switch {
+			case nb < 0 && d.crlf:
+				out = append(out, c08Sig{c08ClsCommText, l.rs, len(d.blank[l.line]) + 1})
+			case nb >= 0 && nb != d.semi[l.line]:
+				out = append(out, c08Sig{c08ClsCommText, l.rs, cm.rs})
+			}
+		}
+	case c08KComm:
+		if c08LowerName(l.name) && !l.decl {
+			end := len(d.blank[l.line])
+			if d.crlf {
+				end++
+			}
+			if sm := d.semi[l.line]; sm >= l.re {
+				end = sm
+			}
+			if end != l.re {
+				out = append(out, c08Sig{c08ClsCommText, l.rs, end})
+			}
+		}
 	case c08KPath:
-		out = append(out, c08Sig{c08ClsLinkDir, l.rs - len("include "), len(d.blank[l.line])})
+		if d.crlf {
+			out = append(out, c08Sig{c08ClsLinkDir + "+" + c08ClsIncludeCR, l.rs - len("include "), len(d.blank[l.line]) + 1})
+		} else {
+			out = append(out, c08Sig{c08ClsLinkDir, l.rs - len("include "), len(d.blank[l.line])})
+		}
 	case c08KPayee:
 		for i := range d.leaves {
 			dl := &d.leaves[i]
@@ -481,6 +645,16 @@ func (d *c08Doc) sigs(li int) []c08Sig {
 		}
 	}
 	return out
+}
+
+// c08LowerName: a commodity spelled in lower-case letters only (grammar G: lowername).
+func c08LowerName(s string) bool {
+	for i := 0; i < len(s); i++ {
+		if s[i] < 'a' || s[i] > 'z' {
+			return false
+		}
+	}
+	return s != ""
 }
 
 func c08AllKnown(classes string) bool {
@@ -575,6 +749,28 @@ func (d *c08Doc) u16At(line, i int) int {
 	return t[len(t)-1] + i - (len(t) - 1)
 }
 
+// c08IncludeCR: r is the range of an include directive of a CRLF document as the parser records it: from the
+// start of the line to the position after the CR (the path is scanned up to the LF). Known class only.
+func c08IncludeCR(d *c08Doc, r protocol.Range) bool {
+	if !d.crlf || r.Start.Character != 0 {
+		return false
+	}
+	for _, e := range d.entries {
+		if e.kind != c08EInclude || !c08IsRange(r, e.first, 0, len(d.blank[e.first])+1) {
+			continue
+		}
+		need := c08ClsIncludeCR
+		if d.hasAstral(e.first) {
+			need += "+" + c08ClsAstral
+		}
+		if c08AllKnown(need) {
+			c08ReachKnown(need)
+			return true
+		}
+	}
+	return false
+}
+
 // c08Dump prints the document and the offending range when replayed natively.
 func c08Dump(d *c08Doc, r protocol.Range, what string) {
 	if zzverif.Engine() {
@@ -588,8 +784,12 @@ func c08Dump(d *c08Doc, r protocol.Range, what string) {
 }
 
 // c08Valid asserts validRange (DESIGN §4.6) for a range that names no leaf. Under the astral class a
-// position after an astral character is validated in rune columns instead.
+// position on a line that contains an astral character is validated in rune columns instead (before the first
+// astral character of the line both validations coincide). Start <= end and the line bound are asserted regardless.
 func c08Valid(d *c08Doc, r protocol.Range, what string) bool {
+	if c08IncludeCR(d, r) {
+		return false
+	}
 	if !zzverif.Engine() && !d.validRange(r) {
 		c08Dump(d, r, what)
 	}
@@ -597,7 +797,10 @@ func c08Valid(d *c08Doc, r protocol.Range, what string) bool {
 	zzverif.Assert(r.End.Line < uint32(len(d.lens)), what+": range ends beyond the last line")
 	ok := true
 	for _, p := range []protocol.Position{r.Start, r.End} {
-		if zzverif.Known(c08ClsAstral) && d.astralBefore(int(p.Line), int(p.Character)) > 0 {
+		if p.Line >= uint32(len(d.lens)) {
+			continue // already reported above
+		}
+		if zzverif.Known(c08ClsAstral) && d.hasAstral(int(p.Line)) {
 			zzverif.Reach("kf:" + c08ClsAstral)
 			zzverif.Assert(p.Character <= uint32(len(d.u16[p.Line])-1), what+": character beyond the line's length in runes")
 			ok = false
